@@ -353,6 +353,9 @@ func (p *Pool) Run() {
 					}
 					if werr != nil || rerr != nil || len(line) == 0 {
 						// worker died on this job
+						if os.Getenv("MCX_DEBUG") != "" {
+							fmt.Fprintf(os.Stderr, "pool: worker died: werr=%v rerr=%v stderr=%s\n", werr, rerr, pr.stderr.String())
+						}
 						pr.stdin.Close()
 						pr.cmd.Wait()
 						var prefix []string
@@ -368,6 +371,9 @@ func (p *Pool) Run() {
 							p.onCrash(j, prefix, stderr)
 						}
 						j.Skip = append(j.Skip, joinPrefix(prefix))
+						if j.Replay {
+							break
+						}
 						if attempt > 200 {
 							fmt.Fprintf(os.Stderr, "pool: job %d keeps killing workers, giving up on it\n", j.ID)
 							break
